@@ -7,3 +7,5 @@ pub mod gen;
 pub mod refint;
 pub mod show;
 pub mod shrink;
+pub mod mutate;
+pub mod valid;
